@@ -331,14 +331,22 @@ impl CelValue {
         if let CelValue::Int(l) = lhs {
             match rhs {
                 CelValue::Int(_) => (lhs, rhs),
-                CelValue::UInt(u) => (lhs, (u as i64).into()),
+                // a uint beyond the int range has no int form: the pair stays unwidened and
+                // the operator reports it as an invalid combination
+                CelValue::UInt(u) => match i64::try_from(u) {
+                    Ok(i) => (lhs, i.into()),
+                    Err(_) => (lhs, rhs),
+                },
                 CelValue::Float(_) => ((l as f64).into(), rhs),
                 CelValue::Bool(b) => (lhs, (b as i64).into()),
                 _ => (lhs, rhs),
             }
         } else if let CelValue::UInt(l) = lhs {
             match rhs {
-                CelValue::Int(_) => ((l as i64).into(), rhs),
+                CelValue::Int(_) => match i64::try_from(l) {
+                    Ok(i) => (i.into(), rhs),
+                    Err(_) => (lhs, rhs),
+                },
                 CelValue::UInt(_) => (lhs, rhs),
                 CelValue::Float(_) => ((l as f64).into(), rhs),
                 CelValue::Bool(b) => (lhs, (b as u64).into()),
@@ -378,6 +386,17 @@ impl CelValue {
     pub fn ord(self, rhs_value: CelValue) -> CelResult<Option<Ordering>> {
         let type1 = self.as_type();
         let type2 = rhs_value.as_type();
+
+        // int and uint are ordered by the numbers they denote, whatever their magnitude
+        match (&self, &rhs_value) {
+            (CelValue::Int(l), CelValue::UInt(r)) => {
+                return Ok((*l as i128).partial_cmp(&(*r as i128)))
+            }
+            (CelValue::UInt(l), CelValue::Int(r)) => {
+                return Ok((*l as i128).partial_cmp(&(*r as i128)))
+            }
+            _ => {}
+        }
 
         let (lhs, rhs) = CelValue::type_prop(self, rhs_value);
 
